@@ -1,8 +1,10 @@
 #!/bin/bash
 # tools/run_seed.sh <name> [PROP] : apply seeded/<name>/patch.diff to /repo, run the property's quick check, undo
 N=$1; P=${2:-$(python3 -c "import json;print(json.load(open('/verif/seeded/$N/meta.json'))['property'])")}
+cp /verif/evidence/$P.json /var/tmp/evidence_$P.keep 2>/dev/null
 cd /repo && git apply /verif/seeded/$N/patch.diff || { echo "patch does not apply"; exit 9; }
 cd /verif && ./check $P --tier quick; RC=$?
 cd /repo && git checkout -- . 
+mv /var/tmp/evidence_$P.keep /verif/evidence/$P.json 2>/dev/null
 echo "seed $N -> check $P exit $RC"
 exit $RC
